@@ -281,16 +281,12 @@ func TestC14Post(t *testing.T) {
 		}
 		nStdNames, nCustom := 0, 0
 		if wantVersion == 0x00020000 {
-			// standard names must use their standard index (the format does
-			// not demand it, but then they would not be "standard names");
-			// this is only recorded, not required
-			for i, idx := range ref.Index {
+			for _, idx := range ref.Index {
 				if int(idx) < numStd {
 					nStdNames++
 				} else {
 					nCustom++
 				}
-				_ = i
 			}
 		}
 
